@@ -39,6 +39,18 @@ def r11_every_hunk_is_tried(ck, rule="C13-R11"):
     if not ck.require(len(outer) == 1, rule, "the trial loop over the hunks of apply_modify", "%d loops over the hunks contain the level loop" % len(outer), am.where()):
         return
     o = outer[0]
+    # one report per hunk: apply_modify records reports only inside its loop over the hunks and never answers with one of the
+    # single-hunk reports of the create / delete paths (the reject writer pairs hunks and reports by position)
+    outside = sorted(b for b in pushes if b not in o["body"])
+    single = [(bb, t) for bb, t in am.calls() if not am.blocks[bb]["cleanup"] and
+              (callee_of(t).get("rpath") or "").split("::")[-1] in ("single_hunk_failure", "single_hunk_skip", "single_hunk_success")]
+    ck.require(not outside and not single, rule, "a modifying file patch gets one report per hunk",
+               "apply_modify %s: its report no longer has one entry per hunk, and the reject writer (which pairs hunks with reports by "
+               "position) drops the hunks past the end of the report" % (
+                   "answers with a single-hunk report (%s)" % (callee_of(single[0][1]).get("rpath") or "").split("::")[-1] if single else
+                   "records a report outside its loop over the hunks"),
+               am.where(single[0][1]) if single else (am.where(am.blocks[outside[0]]["term"]) if outside else am.where()),
+               ok_detail="reports are recorded only in the loop over the hunks")
     normal = lambda e, adt: "Normal" if (adt or "").endswith("ApplyMode") else None
     r = pathconst.reach_under(am, lambda e: None, normal, blocked={il["head"]}, start=[o["some_edge"][1]])
     untried = sorted(b for b in pushes if b in r and b in o["body"])
